@@ -43,6 +43,11 @@ type Profile struct {
 	Favoured    bool // one node receives with priority
 	PromptReset int  // percent: reset immediately after the ledger advanced
 	NewestBias  int  // percent: pick among the newest in-flight items
+	// EquivFocus: the Byzantine validators do little else than help views change (a ChangeView for the next view once per
+	// view) and, whenever one of them is the primary of the most advanced view of a height, equivocate there once - also
+	// towards nodes that lag behind in a lower view.  Nothing is dropped.  Makes forks that need an equivocating primary of
+	// a view > 0 and a lagging victim a matter of thousands of runs instead of millions.
+	EquivFocus bool
 }
 
 var profiles = []Profile{
@@ -53,6 +58,7 @@ var profiles = []Profile{
 	{Name: "split", W: [numActs]int{aDeliver: 55, aDrop: 2, aDup: 3, aTimeout: 10, aStale: 1, aTick: 3, aNewTx: 2, aSupplyTx: 8, aBadTx: 1, aReset: 6, aSync: 3, aCut: 3, aHeal: 3, aByz: 8, aReplay: 2}, PromptReset: 60, NewestBias: 40},
 	{Name: "byzheavy", W: [numActs]int{aDeliver: 50, aDrop: 2, aDup: 4, aTimeout: 8, aStale: 1, aTick: 3, aNewTx: 2, aSupplyTx: 8, aBadTx: 1, aReset: 6, aSync: 2, aByz: 25, aReplay: 4}, PromptReset: 60, NewestBias: 40},
 	{Name: "latereset", W: [numActs]int{aDeliver: 60, aDrop: 1, aDup: 4, aTimeout: 4, aStale: 1, aTick: 3, aNewTx: 2, aSupplyTx: 8, aBadTx: 1, aReset: 1, aSync: 1, aByz: 6, aReplay: 6}, PromptReset: 0, NewestBias: 60},
+	{Name: "equivfocus", W: [numActs]int{aDeliver: 70, aDup: 2, aTimeout: 7, aTick: 2, aNewTx: 1, aSupplyTx: 6, aReset: 6, aByz: 12, aReplay: 1}, PromptReset: 60, NewestBias: 30, EquivFocus: true},
 	{Name: "crashy", W: [numActs]int{aDeliver: 55, aDrop: 2, aDup: 3, aTimeout: 10, aStale: 1, aTick: 3, aNewTx: 2, aSupplyTx: 8, aBadTx: 1, aReset: 6, aSync: 3, aCrash: 2, aRestart: 4, aByz: 6, aReplay: 2}, PromptReset: 60, NewestBias: 40},
 }
 
@@ -84,6 +90,7 @@ type Async struct {
 	fav      int
 	flipped  bool
 	restarts int
+	focusDone map[[3]uint32]bool
 }
 
 func (a *Async) r(label string, n int) int {
@@ -588,6 +595,43 @@ func (a *Async) byz() {
 	if idx < 0 {
 		return
 	}
+	if a.P.EquivFocus && a.pct("focus", 85) {
+		h = t.D.BlockIndex
+		v = 0
+		for _, n := range honest {
+			if n.D.BlockIndex == h && n.D.ViewNumber > v {
+				v = n.D.ViewNumber
+			}
+		}
+		idx = -1
+		for i, id := range w.Cfg.Validators(h) {
+			if id == j {
+				idx = i
+			}
+		}
+		if idx < 0 {
+			return
+		}
+		if a.focusDone == nil {
+			a.focusDone = map[[3]uint32]bool{}
+		}
+		k := [3]uint32{h, uint32(v), uint32(j)}
+		if a.focusDone[k] {
+			return
+		}
+		a.focusDone[k] = true
+		if idx == refPrimary(h, v, len(w.Cfg.Validators(h))) {
+			a.equivocate(j, idx, h, v, honest)
+			return
+		}
+		cv := vt.New(dbft.ChangeViewType, h, v, uint16(idx), j, &vt.ChangeView{NewView: v + 1, Ts: uint64(w.Clock.UnixNano())})
+		w.Stat("byz_focus_changeview")
+		w.act("byz(%d) asks for view %d at height %d", j, v+1, h)
+		for _, n := range honest {
+			w.send(cv, j, n.ID)
+		}
+		return
+	}
 	if idx == refPrimary(h, v, len(w.Cfg.Validators(h))) && h == t.D.BlockIndex && v == t.D.ViewNumber && !t.D.RequestSentOrReceived() && !t.D.BlockSent() &&
 		a.pct("replay", 30) && a.replayRecovery(j, idx, h, v, t) {
 		return
@@ -632,10 +676,32 @@ func (a *Async) equivocate(j, idx int, h uint32, v byte, honest []*Node) {
 			at = append(at, n)
 		}
 	}
+	if len(at) == 0 {
+		return
+	}
+	// nodes of the height that lag behind in a lower view (and are not locked there) always belong to the
+	// B part: B and the commit for it wait in flight (the library keeps them aside until the node enters
+	// the view), while the A part's commits of the higher view may reach them first
+	nfront := len(at)
+	for _, n := range honest {
+		if n.D.BlockIndex == h && n.D.ViewNumber < v && !n.D.CommitSent() && !n.D.PreCommitSent() && !n.D.BlockSent() {
+			at = append(at, n)
+		}
+	}
 	if len(at) < 2 {
 		return
 	}
-	mask := 1 + a.r("eqmask", (1<<uint(min(len(at), 8)))-2)
+	if len(at) > nfront {
+		w.Stat("byz_equivocation_with_lagging_nodes")
+	}
+	mask := 1 + a.r("eqmask", (1<<uint(min(nfront, 8)))-2+min(len(at)-nfront, 1))
+	if nfront > 8 {
+		nfront = 8
+	}
+	mask &= 1<<uint(nfront) - 1 // laggards never get A at once
+	if mask == 0 {
+		mask = 1
+	}
 	ts := at[0].TipTs + w.Cfg.TsIncrement
 	var last []vt.H
 	mkProp := func(nonce uint64) Payload {
@@ -664,7 +730,7 @@ func (a *Async) equivocate(j, idx int, h uint32, v byte, honest []*Node) {
 	w.Stat("byz_equivocation")
 	w.act("byz(%d) equivocates at (%d,%d): A=%s to mask %b at once, B=%s in flight to the rest", j, h, v, pa.Summary(), mask, pb.Summary())
 	for i, n := range at {
-		if mask&(1<<uint(i%8)) != 0 {
+		if n.D.ViewNumber == v && mask&(1<<uint(i%8)) != 0 {
 			follow(pa, n)
 			n.Receive(pa)
 			a.afterCall(n)
